@@ -1,86 +1,10 @@
 ---------------------------- MODULE SnapshotJudge ----------------------------
 (***************************************************************************)
-(* Trace judge for recorded tree snapshots (properties C03, C04, C08, C18).*)
-(* Data!Cases is a sequence of records                                     *)
-(*   [net, ch (seq of <<p,l,r>>), sliced (seq of [ind, project]),          *)
-(*    nodes (seq of [n, legs, involved, size, flops]),                     *)
-(*    leafs (seq of [t, legs, size]),                                      *)
-(*    stats [flops, write, size], mult, sliced_inputs, pre,                *)
-(*    peaks (seq of [seq, peak]), combo [factor, value], exec (seq of      *)
-(*    [n, lsize, rsize, psize]), preexec (seq of [t, size])]               *)
-(* every figure is what the implementation reported; the judge recomputes  *)
-(* each from the definitions in TreeDefs and names the first clause that   *)
-(* disagrees.  One verdict tuple per case: <<"V", i, clause>>.             *)
+(* Trace judge for recorded tree snapshots (properties C03, C08, C18):     *)
+(* walks Data!Cases, one verdict tuple <<"V", i, clause>> per case.        *)
 (***************************************************************************)
-EXTENDS Data, TreeDefs
+EXTENDS Data, SnapshotClauses
 VARIABLE i
-
-ChOf(c) == [p \in {c.ch[k][1] : k \in DOMAIN c.ch} |->
-               LET k == CHOOSE k \in DOMAIN c.ch : c.ch[k][1] = p
-               IN  <<c.ch[k][2], c.ch[k][3]>>]
-
-NodeClause(c, ch, Sl, k) ==
-    LET nd == c.nodes[k] IN
-    IF nd.n \notin DOMAIN ch THEN "node-not-in-tree"
-    ELSE IF nd.legs # Legs(c.net, nd.n, Sl) THEN "legs"
-    ELSE IF nd.involved # NodeInvolved(c.net, ch, Sl, nd.n) THEN "involved"
-    ELSE IF nd.size # Size(c.net, nd.n, Sl) THEN "size"
-    ELSE IF nd.flops # NodeFlops(c.net, ch, Sl, nd.n) THEN "flops"
-    ELSE "ok"
-
-LeafClause(c, Sl, k) ==
-    LET lf == c.leafs[k] IN
-    IF lf.legs # Legs(c.net, {lf.t}, Sl) THEN "leaf-legs"
-    ELSE IF lf.size # Size(c.net, {lf.t}, Sl) THEN "leaf-size"
-    ELSE "ok"
-
-FirstBad(S, F(_)) ==   \* first non-"ok" clause over 1..n, else "ok"
-    IF \A k \in S : F(k) = "ok" THEN "ok"
-    ELSE F(CHOOSE k \in S : F(k) # "ok" /\ \A j \in S : j < k => F(j) = "ok")
-
-PeakClause(c, ch, k) ==
-    LET pk == c.peaks[k] IN
-    IF ~LegalOrder(ch, pk.seq) THEN "order-illegal"
-    ELSE IF pk.peak # Peak(c.net, ch, c.sliced, pk.seq) THEN "peak"
-    ELSE "ok"
-
-ExecClause(c, ch, Sl, k) ==
-    LET e == c.exec[k] IN
-    IF e.n \notin DOMAIN ch THEN "exec-node"
-    ELSE IF e.psize # Size(c.net, e.n, Sl) THEN "exec-size"
-    ELSE IF e.lsize # Size(c.net, ch[e.n][1], Sl) THEN "exec-lsize"
-    ELSE IF e.rsize # Size(c.net, ch[e.n][2], Sl) THEN "exec-rsize"
-    ELSE "ok"
-
-Clause(c) ==
-    LET ch == ChOf(c)
-        Sl == SlSet(c.sliced)
-    IN
-    IF ~Complete(c.net, ch) THEN "complete"
-    ELSE IF Cardinality({c.nodes[k].n : k \in DOMAIN c.nodes}) # Cardinality(DOMAIN ch)
-        THEN "nodes-missing"
-    ELSE LET nc == FirstBad(DOMAIN c.nodes, LAMBDA k : NodeClause(c, ch, Sl, k)) IN
-    IF nc # "ok" THEN nc
-    ELSE LET lc == FirstBad(DOMAIN c.leafs, LAMBDA k : LeafClause(c, Sl, k)) IN
-    IF lc # "ok" THEN lc
-    ELSE IF c.mult # Mult(c.net, c.sliced) THEN "multiplicity"
-    ELSE IF c.stats.flops # TotFlops(c.net, ch, c.sliced) THEN "total-flops"
-    ELSE IF c.stats.write # TotWrite(c.net, ch, c.sliced) THEN "total-write"
-    ELSE IF c.stats.size # MaxSize(c.net, ch, c.sliced) THEN "max-size"
-    ELSE IF c.combo.value # Combo(c.net, ch, c.sliced, c.combo.factor) THEN "combo"
-    ELSE IF c.sliced_inputs # SlicedInputs(c.net, c.sliced) THEN "sliced-inputs"
-    ELSE IF c.pre # PreLeaves(c.net, c.sliced) THEN "preprocessing"
-    ELSE LET pc == FirstBad(DOMAIN c.peaks, LAMBDA k : PeakClause(c, ch, k)) IN
-    IF pc # "ok" THEN pc
-    ELSE LET ec == FirstBad(DOMAIN c.exec, LAMBDA k : ExecClause(c, ch, Sl, k)) IN
-    IF ec # "ok" THEN ec
-    ELSE IF ~LegalOrder(ch, [k \in DOMAIN c.exec |-> c.exec[k].n]) /\ c.exec # <<>> THEN "exec-order"
-    ELSE IF {c.preexec[k].t : k \in DOMAIN c.preexec} # PreLeaves(c.net, c.sliced) /\ c.exec # <<>>
-        THEN "exec-pre-set"
-    ELSE IF \E k \in DOMAIN c.preexec : c.preexec[k].size # Size(c.net, {c.preexec[k].t}, Sl)
-        THEN "exec-pre-size"
-    ELSE "ok"
-
 Init == i = 1
 Next == /\ i <= Len(Cases)
         /\ PrintT(<<"V", i, Clause(Cases[i])>>)
